@@ -2244,6 +2244,12 @@ func (self *Aof) GetAofLockExpriedTime(lockCommand *protocol.LockCommand, lock *
 		return lockCommand.Expried
 	}
 	if lockCommand.ExpriedFlag&protocol.EXPRIED_FLAG_MILLISECOND_TIME != 0 {
+		if elapsedSeconds := int64(aofLock.CommandTime) - lock.startTime; elapsedSeconds > 0 {
+			if expriedTimeMilliseconds := int64(lockCommand.Expried) - elapsedSeconds*1000; expriedTimeMilliseconds > 0 {
+				return uint16(expriedTimeMilliseconds)
+			}
+			return 1
+		}
 		return lockCommand.Expried
 	}
 	if lockCommand.ExpriedFlag&protocol.EXPRIED_FLAG_MINUTE_TIME != 0 {
